@@ -14,6 +14,8 @@
 //! `c11.src <op> <alit> <aunit> <blit> <bunit> [<abits> <bbits>]`
 //!     -> `ok:<hex value text>` | `err:<hex message>`: the expression compiled from SCSS
 //!     source (`a{b: A op B}`; products and quotients through `meta.inspect`), precision 10.
+//! In `c11.src` the literals `nan`, `inf`, `-inf` stand for `math.div(0u, 0)`, `math.div(1u, 0)`,
+//! `math.div(-1u, 0)`.
 //! Unit sets are written `px^1,em^-1` (`-` = unitless); a unit name `-` is `Unit::None`.
 use crate::util::*;
 use rsass::css::Value;
@@ -179,11 +181,16 @@ fn api_op(op: &str, a: Numeric, b: Numeric) -> String {
     }
 }
 
+/// Source text of an operand.  The magnitudes `nan`, `inf`, `-inf` have no literal; they
+/// are produced by `math.div(0<unit>, 0)`, `math.div(1<unit>, 0)`, `math.div(-1<unit>, 0)`
+/// (`Numeric / Numeric`: value 0/0, 1/0, -1/0 with the unit of the dividend).
 fn lit(l: &str, u: &str) -> String {
-    if u == "-" {
-        l.to_string()
-    } else {
-        format!("{l}{u}")
+    let unit = if u == "-" { "" } else { u };
+    match l {
+        "nan" => format!("math.div(0{unit}, 0)"),
+        "inf" => format!("math.div(1{unit}, 0)"),
+        "-inf" => format!("math.div(-1{unit}, 0)"),
+        _ => format!("{l}{unit}"),
     }
 }
 
